@@ -201,6 +201,19 @@ Theorem C15_monitor : forall c,
 Proof. exact C15_ok_all. Qed.
 Print Assumptions C15_monitor.
 
+(** ** Modelling fact: [write_script] is a function of (back-end, batch block,
+    step).  The model carries no adapter-instance state, so the script of a
+    step does not depend on which steps the same adapter wrote before.  The
+    check's "sequence" stream holds the implementation to this: one adapter
+    instance writes several steps in a row and every script must equal the
+    model's for that step alone (and satisfy [C15_ok] with the step's OWN
+    effective resources). *)
+Theorem C15_stateless : forall c c',
+  c_be c = c_be c' -> c_batch c = c_batch c' -> c_broker c = c_broker c' -> c_step c = c_step c' ->
+  run_model c = run_model c'.
+Proof. exact run_model_stateless. Qed.
+Print Assumptions C15_stateless.
+
 (** ** The scanner was written against these regex texts (T-data) *)
 Theorem C15_regex_texts : regex_text_matches = true.
 Proof. vm_compute; reflexivity. Qed.
